@@ -5,6 +5,7 @@ MXF = "litedram/core/multiplexer.py"
 CMF = "litedram/common.py"
 RFF = "litedram/core/refresher.py"
 XBF = "litedram/core/crossbar.py"
+DMF = "litedram/frontend/dma.py"
 
 
 def M(id, prop, ob, file, old, new, expect="refuted", **kw):
@@ -72,4 +73,13 @@ MUTANTS = [
     M("c02.5-valid-and", "C02", "C02.5", MXF, "return cmd.valid & cmd.ready & getattr(cmd, attr)", "return cmd.valid & getattr(cmd, attr)"),
     M("c02.6-override-phase1", "C02", "C02.6", MXF, "if i == 0: # Select all ranks on refresh.", "if i == 1: # Select all ranks on refresh."),
     M("c02.6-rank-low-bits", "C02", "C02.6", MXF, "Array(cmd.ba[-rankbits:] for cmd in commands)[sel]", "Array(cmd.ba[:rankbits] for cmd in commands)[sel]"),
+    # ---- C12 ----
+    M("c12.1-cmd-nores", "C12", ["C12.1", "C12.2"], DMF, "cmd.valid.eq(enable & sink.valid & res_fifo.sink.ready),", "cmd.valid.eq(enable & sink.valid),"),
+    M("c12.1-depth+1", "C12", "C12.1", DMF, 'res_fifo = stream.SyncFIFO([("dummy", 1)], fifo_depth)', 'res_fifo = stream.SyncFIFO([("dummy", 1)], fifo_depth + 1)'),
+    M("c12.1-res-buffered", "C12", "C12.1", DMF, 'res_fifo = stream.SyncFIFO([("dummy", 1)], fifo_depth)', 'res_fifo = stream.SyncFIFO([("dummy", 1)], fifo_depth, buffered=True)'),
+    M("c12.1-pop", "C12", "C12.1", DMF, "res_fifo.source.ready.eq(fifo.source.valid & fifo.source.ready)", "res_fifo.source.ready.eq(fifo.source.ready)"),
+    M("c12.3-last", "C12", "C12.3", DMF, "res_fifo.sink.last.eq(cmd.last),", "res_fifo.sink.last.eq(0),"),
+    M("c12.4-fork", "C12", "C12.4", DMF, "fifo.sink.valid.eq(sink.valid & cmd.ready),", "fifo.sink.valid.eq(sink.valid),"),
+    B("c12-twin-order", "C12", DMF, "cmd.valid.eq(enable & sink.valid & res_fifo.sink.ready),", "cmd.valid.eq(res_fifo.sink.ready & enable & sink.valid),"),
+    B("c12-twin-helper", "C12", DMF, "sink.ready.eq(enable & cmd.ready & res_fifo.sink.ready),", "sink.ready.eq(can_issue & cmd.ready),\n            can_issue.eq(enable & res_fifo.sink.ready),"),
 ]
